@@ -30,7 +30,7 @@ From HV Require Import lib.Harness model.Validity model.Builder spec.BuilderS pr
   proofs.BuilderAcyclicP proofs.BuilderNonLocalP proofs.BuilderInputsP proofs.BuilderLinearP proofs.BuilderCopyP
   model.Builder2 proofs.Builder2EmbP spec.Builder2WFS proofs.Builder2P proofs.Builder2FrameP proofs.Builder2RulesP proofs.Builder2TypeP proofs.Builder2NonLocalP
   spec.Builder2LiveS proofs.Builder2AcyclicP proofs.Builder2LinearP proofs.Builder2ValidP
-  model.Builder3 proofs.Builder3EmbP proofs.Builder3IndexP.
+  model.Builder3 proofs.Builder3EmbP proofs.Builder3IndexP spec.Builder3S proofs.Builder3TagsP.
 
 (* ---- tie of the validity predicate's tables to the Rust sources (regenerated data: gen/RustTables.v) ---- *)
 From HV Require Import gen.RustTables proofs.RustTablesP proofs.RustSigP.
@@ -565,3 +565,30 @@ Theorem C01_builder3_index_root_subs : forall tys sigs p subs g gs, run3s tys si
   (r_index g = true /\ r_root_no_edges g = true) /\ forall x, In x gs -> r_index x = true /\ r_root_no_edges x = true.
 Proof. exact run3s_index_root. Qed.
 Print Assumptions C01_builder3_index_root_subs.
+
+(* Rule 1 (only permitted parent/child operation pairs) for EVERY program of the third language, under the premise croot3
+   (spec/Builder3S.v) computed from the program text: no constant is asked to be placed at the root of a Hugr rooted in a
+   Conditional, and no separately built Module is inserted.  Each add_node call of the builders puts its child under a node
+   whose kind the induction tracks: the open container (DFG / Case / TailLoop / FuncDefn / DataflowBlock accept every
+   dataflow child, nested function definitions included), the Conditional for Case nodes, the CFG for blocks and the exit
+   block, the Module for declarations, definitions and constants, the root for constants asked to be placed there;
+   insert_hugr keeps the pairs of the inserted Hugr and puts its root (a dataflow child unless a Module) under the open
+   container; set_outputs / branch_exit complete operations in place.  The premise is necessary: both clauses are refuted
+   by programs the builders accept (C01_builder3_child_tags_refuted).  The same for the nested documents of
+   function-valued constants. *)
+Theorem C01_builder3_child_tags : forall tys sigs p g,
+  run3 tys sigs p = Ok g -> croot3 p = true -> r_child_tags g = true.
+Proof. exact run3_child_tags. Qed.
+Print Assumptions C01_builder3_child_tags.
+Theorem C01_builder3_child_tags_subs : forall tys sigs p subs g gs, run3s tys sigs p subs = Ok (g, gs) -> croot3s p subs = true ->
+  r_child_tags g = true /\ forall x, In x gs -> r_child_tags x = true.
+Proof. exact run3s_child_tags. Qed.
+Print Assumptions C01_builder3_child_tags_subs.
+(* non-vacuity: the example program of C01_builder3_example meets the premise; a constant at the root of a
+   Conditional-rooted Hugr and an inserted Module each give an accepted program whose document violates rule 1 *)
+Theorem C01_builder3_child_tags_refuted :
+  croot3 ex9_prog = true /\
+  (croot3 (emb2 ex_croot) = false /\ exists g, run3 ex_croot_tys [] (emb2 ex_croot) = Ok g /\ r_child_tags g = false) /\
+  (croot3 ex10_prog = false /\ exists g, run3 [] [] ex10_prog = Ok g /\ r_child_tags g = false).
+Proof. exact (conj ex9_croot3 (conj ex_croot3_refuted ex10_module_refuted)). Qed.
+Print Assumptions C01_builder3_child_tags_refuted.
